@@ -53,6 +53,7 @@ func runC14(c *Ctx) error {
 	for i := 0; i < c.Pick(2, 10); i++ {
 		cases = append(cases, c14Case{Class: "sweep-gap", Window: 400 * time.Millisecond, Goroutines: 2, Junk: 250000, Decorator: i%2 == 1})
 	}
+	cases = append(cases, c14Case{Class: "decorator-batch", Window: 400 * time.Millisecond, Decorator: true})
 	for i := 0; i < c.Pick(2, 20); i++ {
 		cases = append(cases, c14Case{Class: "decorator-overlap", Window: 50 * time.Millisecond, Keys: 3, Decorator: true})
 		cases = append(cases, c14Case{Class: "refresh", Window: 60 * time.Millisecond, Decorator: i%2 == 1})
@@ -164,7 +165,37 @@ func c14Run(r *tr.Run, cs c14Case, rng *rand.Rand) {
 		_, inv := invoked.Load(id)
 		r.Emit("ret", "g", g, "key", key, "t0", a, "t1", b, "dup", dup, "invoked", inv, "acked", acked || !dup)
 	}
+	// several messages in ONE Publish call of the decorator: each is judged on its own, wherever it stands in the batch
+	presentBatch := func(g string, keys []string) {
+		var ms []*message.Message
+		var ids []string
+		for _, key := range keys {
+			smu.Lock()
+			seq++
+			id := fmt.Sprintf("r%d-%d", r.ID, seq)
+			smu.Unlock()
+			m := message.NewMessage(id, payloadOf(key))
+			m.Metadata.Set("key", key)
+			ms, ids = append(ms, m), append(ids, id)
+		}
+		a := now()
+		if err := decorated.Publish("t", ms...); err != nil {
+			r.Emit("error", "what", err.Error())
+			return
+		}
+		b := now()
+		for i, key := range keys {
+			_, inv := invoked.Load(ids[i])
+			r.Emit("ret", "g", g, "key", key, "t0", a, "t1", b, "dup", !inv, "invoked", inv, "acked", scripted.SettleState(ms[i]) == "ack" || inv)
+		}
+	}
 	switch {
+	case cs.Class == "decorator-batch":
+		present("g0", "A")
+		presentBatch("g0", []string{"A", "B"})      // the duplicate comes first
+		presentBatch("g0", []string{"B", "A"})      // nothing new at all
+		presentBatch("g0", []string{"C", "A", "D"}) // a duplicate in the middle
+		presentBatch("g0", []string{"E", "E"})      // twice in one batch
 	case cs.Class == "decorator-overlap":
 		// two Publish calls through one decorator are in flight at once: the first is held inside the inner publisher
 		// while the second runs to completion; each inner call must still see its own message
